@@ -317,6 +317,122 @@ theorem valsOf_spec (g : Grid α) (hg : WF g) (afo : List String) (T : List (Trk
     refine ⟨hR, fun i j => ?_⟩
     rw [hc i j, cellAt_empty]; simp
 
+/-- `(x, y)` lies in the extent of the grid -/
+def Inside (g : Grid α) (x y : α) : Prop := (g.xmin ≤ x ∧ x ≤ g.xmax) ∧ (g.ymin ≤ y ∧ y ≤ g.ymax)
+
+theorem getCell_outside (g : Grid α) (x y : α) (h : ¬ Inside g x y) : getCell Int.floor g x y = none := by
+  unfold getCell
+  by_cases h1 : x < g.xmin ∨ g.xmax < x
+  · simp [h1]
+  · by_cases h2 : y < g.ymin ∨ g.ymax < y
+    · simp [h1, h2]
+    · exfalso
+      apply h
+      push Not at h1 h2
+      exact ⟨h1, h2⟩
+
+/-- the scatter over observations one of which lies outside the extent raises `TypeError` (the ones before it, inside
+    the extent, are put in their cells without `IndexError`) -/
+theorem scatterP_outside {W : Type} (g : Grid α) (hg : WF g) : ∀ (obs : List (α × α × W)) (c : Cells W),
+    Rect c g.nrow.toNat g.ncol.toNat → (∃ o ∈ obs, ¬ Inside g o.1 o.2.1) →
+    (scatterP Int.floor g c obs).2 = some .type := by
+  intro obs
+  induction obs with
+  | nil => intro c _ h; obtain ⟨o, ho, _⟩ := h; simp at ho
+  | cons o rest ih =>
+    intro c hR h
+    obtain ⟨x, y, v⟩ := o
+    by_cases hin : Inside g x y
+    · obtain ⟨cc, r, hcell, c0, c1, r0, r1, _⟩ := getCell_footprint g hg x y hin.1 hin.2
+      have c1' : cc < (g.ncol.toNat : ℤ) := by rw [Int.toNat_of_nonneg hg.ncol_pos.le]; exact c1
+      have r1' : r < (g.nrow.toNat : ℤ) := by rw [Int.toNat_of_nonneg hg.nrow_pos.le]; exact r1
+      obtain ⟨c', hput, hR', _⟩ := put_spec c g.nrow.toNat g.ncol.toNat hR r cc r0 r1' c0 c1' v
+      simp only [scatterP, hcell, hput]
+      apply ih c' hR'
+      obtain ⟨o', ho', hout⟩ := h
+      rcases List.mem_cons.1 ho' with e | e
+      · subst e; exact absurd hin hout
+      · exact ⟨o', e, hout⟩
+    · simp only [scatterP, getCell_outside g x y hin]
+
+theorem obsOf_points (t : Trk α) (af : String) (vs : List (Option α)) (h : featVals t af = some vs) (hl : vs.length = t.pts.length) :
+    (obsOf t af).map (fun o => (o.1, o.2.1)) = t.pts := by
+  unfold obsOf
+  rw [h]
+  simp only [List.map_map]
+  have : ((fun o : α × α × Option α => (o.1, o.2.1)) ∘ fun pv : (α × α) × Option α => (pv.1.1, pv.1.2, pv.2)) = Prod.fst := by
+    funext pv; rfl
+  rw [this, List.map_fst_zip]
+  omega
+
+/-- a track has the feature, with one value per observation -/
+def HasFeat (t : Trk α) (af : String) : Prop := ∃ vs, featVals t af = some vs ∧ vs.length = t.pts.length
+
+theorem growE_outside (g : Grid α) (hg : WF g) (t : Trk α) (e : String × Cells (Option α))
+    (hR : Rect e.2 g.nrow.toNat g.ncol.toNat) (hf : HasFeat t e.1) (hout : ∃ p ∈ t.pts, ¬ Inside g p.1 p.2) :
+    (growE Int.floor g t e).2 = some .type := by
+  obtain ⟨vs, hvs, hl⟩ := hf
+  obtain ⟨p, hp, hpo⟩ := hout
+  have hex : ∃ o ∈ obsOf t e.1, ¬ Inside g o.1 o.2.1 := by
+    rw [← obsOf_points t e.1 vs hvs hl] at hp
+    obtain ⟨o, ho, rfl⟩ := List.mem_map.1 hp
+    exact ⟨o, ho, hpo⟩
+  unfold growE
+  rw [hvs]
+  exact scatterP_outside g hg _ _ hR hex
+
+theorem addTrack_outside (g : Grid α) (hg : WF g) (t : Trk α) (V : Vals α) (hne : V ≠ [])
+    (hV : ∀ e ∈ V, Rect e.2 g.nrow.toNat g.ncol.toNat ∧ HasFeat t e.1) (hout : ∃ p ∈ t.pts, ¬ Inside g p.1 p.2) :
+    (addTrack Int.floor g t V).2 = some .type := by
+  cases V with
+  | nil => exact absurd rfl hne
+  | cons e rest =>
+    have he := growE_outside g hg t e (hV e List.mem_cons_self).1 (hV e List.mem_cons_self).2 hout
+    have hpair : growE Int.floor g t e = ((growE Int.floor g t e).1, some .type) := by rw [← he]
+    simp only [addTrack]
+    rw [hpair]
+
+/-- the loop over the tracks of a collection one of whose observations lies outside the extent raises `TypeError` -/
+theorem addTracks_outside (g : Grid α) (hg : WF g) : ∀ (ts : List (Trk α)) (V : Vals α), V ≠ [] →
+    (∀ e ∈ V, Rect e.2 g.nrow.toNat g.ncol.toNat ∧ ∀ t ∈ ts, HasFeat t e.1) →
+    (∃ t ∈ ts, ∃ p ∈ t.pts, ¬ Inside g p.1 p.2) →
+    (addTracks Int.floor g ts V).2 = some .type := by
+  intro ts
+  induction ts with
+  | nil => intro V _ _ h; obtain ⟨t, ht, _⟩ := h; simp at ht
+  | cons t rest ih =>
+    intro V hne hV h
+    by_cases hin : ∀ p ∈ t.pts, Inside g p.1 p.2
+    · have hsome : ∀ e ∈ V, (featVals t e.1).isSome = true := fun e he => by
+        obtain ⟨vs, hvs, _⟩ := (hV e he).2 t List.mem_cons_self
+        rw [hvs]; rfl
+      have h1 : ∀ e ∈ V, (growE Int.floor g t e).2 = none := fun e he =>
+        (growE_ok g hg t e (hV e he).1 (hsome e he) hin).1
+      simp only [addTracks]
+      rw [addTrack_ok Int.floor g t V h1]
+      simp only
+      apply ih
+      · intro e; exact hne (List.map_eq_nil_iff.1 e)
+      · intro e' he'
+        obtain ⟨e, he, rfl⟩ := List.mem_map.1 he'
+        refine ⟨(growE_ok g hg t e (hV e he).1 (hsome e he) hin).2.1, ?_⟩
+        intro t' ht'
+        rw [growE_key]
+        exact (hV e he).2 t' (List.mem_cons_of_mem _ ht')
+      · obtain ⟨t', ht', hp⟩ := h
+        rcases List.mem_cons.1 ht' with e | e
+        · subst e
+          obtain ⟨p, hp1, hp2⟩ := hp
+          exact absurd (hin p hp1) hp2
+        · exact ⟨t', e, hp⟩
+    · push Not at hin
+      obtain ⟨p, hp1, hp2⟩ := hin
+      have hT := addTrack_outside g hg t V hne
+        (fun e he => ⟨(hV e he).1, (hV e he).2 t List.mem_cons_self⟩) ⟨p, hp1, hp2⟩
+      have hpair : addTrack Int.floor g t V = ((addTrack Int.floor g t V).1, some .type) := by rw [← hT]
+      simp only [addTracks]
+      rw [hpair]
+
 end add
 
 section compute
